@@ -163,6 +163,14 @@ def ifelse_panel():
                           expected_trace='abBbAaZ'))
         cases.append(dict(kind='c04_l2', script=['for i in ${arr}', 'emit ${i}', endkw.replace('end_while', 'end_for'), 'for i in ${arr}', 'emit ${i}', 'end', 'emit Z'], vars={}, array=['p', 'q', 'r'], expected_trace='pqrpqrZ'))
         cases.append(dict(kind='c04_l2', script=['for i in ${arr}', 'v = set true', 'while probe b ${v}', 'emit B', 'v = set false', endkw, 'end', 'emit Z'], vars={}, array=['p', 'q'], expected_trace='bBbbBbZ'))
+    # blocks whose body calls a script-implemented command that has blocks of its own (concat: a for loop; join_path: a for loop with an if
+    # inside and a while loop): the body of such a command has its own line numbers, which may coincide with the caller's (every alignment
+    # of the caller's block line against them is tried by padding)
+    for pad in range(0, 14):
+        pre = ['x%d = set 1' % j for j in range(pad)]
+        cases.append(dict(kind='c04_l2', script=pre + ['for i in ${arr}', 'y = concat ${i} -', 'emit ${y}', 'end', 'emit Z'], vars={}, array=['p', 'q', 'r'], expected_trace='p-q-r-Z'))
+        cases.append(dict(kind='c04_l2', script=pre + ['for i in ${arr}', 'if probe a ${c0}', 'y = join_path ${i} x//y', 'emit ${y}', 'end', 'end', 'emit Z'], vars={'c0': 'true'}, array=['p', 'q'], expected_trace='ap/x/yaq/x/yZ'))
+        cases.append(dict(kind='c04_l2', script=pre + ['while probe a ${w}', 'y = join_path u//v w', 'emit ${y}', 'w = set false', 'end', 'emit Z'], vars={'w': 'true'}, array=[], expected_trace='au/v/waZ', timeout=10))
     return cases
 
 
@@ -176,7 +184,7 @@ def replayer(v):
             except subprocess.TimeoutExpired: got = (True, 'the native run does not finish within the time limit (the reference run has %d steps)' % len(case['expected_trace']))
             n += 1
             if got[0]: v['native'] = case.get('native'); v['case'] = {k: x for k, x in case.items() if k != 'native'}; return (True, 'chain %r with %r: %s' % (' | '.join(case['script']), case['vars'], got[1]))
-        return (False, '%d if / elseif / else chains and while loops run as the abstract machine natively' % n)
+        return (False, '%d if / elseif / else chains, while and for loops run as the abstract machine natively' % n)
     if v.get('kind') == 'c04_l2':
         script = 'arr = array %s\n' % ' '.join(v['array']) + '\n'.join(v['script'])
         out = H.replay(dict(mode='scripted_sdk', script=script, vars=v['vars'], recorders=['emit'], recorder_output='', probes=['probe']), timeout=v.get('timeout', 60)); v['native'] = out
@@ -559,13 +567,17 @@ def job_while_steps(ctx, jr):
             st = State(True, {}); st.m[(0, 'state')] = M([])
             ws = e.fresh_int('W.start', 0, 40); we = e.fresh_int('W.end', 0, 60); e.assume(ws < we)
             Wv = T([ws, we], WHM + '::WhileMetaInfo')
-            def store(meta):
-                st.m[(0, 'ci')] = T([meta, S(0, [])], WHM + '::CallInfo')
+            ci_cur = e.fresh_int('context.current', 0, len(CONTEXTS) - 1); cur_ctx = _choose(ci_cur, CONTEXTS)
+            e.run_call('types::scope::set_line_context_name', st, [cur_ctx, P(0, 'state')], 'sdk')
+            def store(meta, name=None):
+                st.m[(0, 'ci')] = T([meta, cur_ctx if name is None else name], WHM + '::CallInfo')
                 e.run_call(WHM + '::store_call_info', st, [P(0, 'ci'), P(0, 'state')], 'sdk')
             others = []
             for b_ in range(below):
-                os_ = e.fresh_int('below.start', 0, 40); oe = e.fresh_int('below.end', 0, 60); e.assume(z3.And(os_ < oe, oe != we))
-                others.append((os_, oe)); store(T([os_, oe], WHM + '::WhileMetaInfo'))
+                os_ = e.fresh_int('below.start', 0, 40); oe = e.fresh_int('below.end', 0, 60)
+                ci_b = e.fresh_int('context.below', 0, len(CONTEXTS) - 1)       # an entry of another line context may use the same line numbers
+                e.assume(z3.And(os_ < oe, z3.Or(ci_b != ci_cur, oe != we)))
+                others.append((os_, oe)); store(T([os_, oe], WHM + '::WhileMetaInfo'), _choose(ci_b, CONTEXTS))
             if cmd == 'end_while': store(Wv)
             st.m[(0, 'vars')] = M([]); st.m[(0, 'cmds')] = T([M([]), M([])], 'types::command::Commands'); st.m[(0, 'env')] = T([Opaque('out'), Opaque('err'), e.alloc(st, False)], 'types::env::Env')
             ck = e.fresh_int('condition', 0, 2); mk = e.fresh_bool('meta.err'); calls = []
@@ -600,6 +612,7 @@ def job_while_steps(ctx, jr):
 
 
 FIM = 'sdk::std::flowcontrol::forin'
+CONTEXTS = ['', 'scope::concat']
 
 
 def job_forin_steps(ctx, jr):
@@ -622,13 +635,18 @@ def job_forin_steps(ctx, jr):
             st = State(True, {}); st.m[(0, 'state')] = M([(True, mk_str('handles'), E(SVT, SUB, {SUB: [M([(True, mk_str('handle:arr'), arr)])]}))])
             fs = e.fresh_int('F.start', 0, 40); fe = e.fresh_int('F.end', 0, 60); e.assume(fs < fe)
             Fv = T([fs, fe], FIM + '::ForInMetaInfo')
-            def store(it, meta):
-                st.m[(0, 'ci')] = T([it, meta, S(0, [])], FIM + '::CallInfo')
+            # the line context: '' in the main script, the scope name inside the body of a script-implemented command (whose line numbers are
+            # its own: an entry of another context may sit on the very same line numbers as this loop)
+            ci_cur = e.fresh_int('context.current', 0, len(CONTEXTS) - 1); cur_ctx = _choose(ci_cur, CONTEXTS)
+            e.run_call('types::scope::set_line_context_name', st, [cur_ctx, P(0, 'state')], 'sdk')
+            def store(it, meta, name=None):
+                st.m[(0, 'ci')] = T([it, meta, cur_ctx if name is None else name], FIM + '::CallInfo')
                 e.run_call(FIM + '::store_call_info', st, [P(0, 'ci'), P(0, 'state')], 'sdk')
             for b_ in range(below):
                 os_ = e.fresh_int('below.start', 0, 40); oe = e.fresh_int('below.end', 0, 60)
-                e.assume(z3.And(os_ < oe, os_ != fs, os_ != fe, oe != fs, oe != fe))
-                store(e.fresh_int('below.iteration', 0, 3), T([os_, oe], FIM + '::ForInMetaInfo'))
+                ci_b = e.fresh_int('context.below', 0, len(CONTEXTS) - 1)
+                e.assume(z3.And(os_ < oe, z3.Or(ci_b != ci_cur, z3.And(os_ != fs, os_ != fe, oe != fs, oe != fe))))
+                store(e.fresh_int('below.iteration', 0, 3), T([os_, oe], FIM + '::ForInMetaInfo'), _choose(ci_b, CONTEXTS))
             running = e.fresh_bool('loop.running') if cmd == 'for' else True
             k = e.fresh_int('k', 0, 3)
             # the entry of this loop is on top only when the loop is running; build both stacks and merge by running the store under a guard
